@@ -313,7 +313,8 @@ class FakeQueue:
         if x is None:
             return -1
         try:
-            return int(pickle.loads(x))
+            v = pickle.loads(x)
+            return int(v[0] if isinstance(v, list) else v)
         except Exception:
             return None
 
